@@ -755,7 +755,8 @@ def z2s_kernel(
 ) -> tuple[ParticleArray, ParticleArray]:
     """The kernel of the z2s function"""
     N = len(I)
-    K = np.ones(N, dtype=np.int64)
+    # With a single s-level both levels of the pair are that level (K - 1 wraps around)
+    K = np.full(N, min(1, z_rho.shape[0] - 1), dtype=np.int64)
     A = np.ones(N, dtype=np.float64)
     for n in numba.prange(N):
         zr = z_rho[:, J[n], I[n]]
